@@ -185,6 +185,16 @@ def fresh_part_rule(ctx, rule):
            norm(c[0])[:100] if c else '', wr.loc(g))
 
 
+def _leaky_commit(repo):
+    """does write_multi store into the metadata object before all parts are written?"""
+    from .simple_append import multi_commit_stores
+    try:
+        _, _, inner, after = multi_commit_stores(repo['writer'])
+    except AnalysisError:
+        return True
+    return bool(inner) or not after
+
+
 def error_discipline_rule(ctx, rule):
     repo = ctx.repo
     n = 0
@@ -243,6 +253,12 @@ def error_discipline_rule(ctx, rule):
                                 'self._write_common_metadata', 'write_common_metadata', 'write_multi', 'make_part_file',
                                 'partition_on_columns') or fx.classify(c) in ('MKDIR', 'REMOVE', 'RENAME') or (
                                 fx.classify(c) == 'OPEN' and fx.writable(fx.mode_of(c)))):
+                            if callee(c) in ('self._write_common_metadata', 'write_common_metadata') and not _leaky_commit(repo):
+                                # the metadata object takes new row groups only after all parts were written (checked by
+                                # the commit rules): what is rewritten here after a failure is the old summary
+                                ctx.ob(rule, '%s.%s:summary-rewritten-on-the-exceptional-path-is-the-old-one' % (mod, q), True,
+                                       norm(c)[:50], m.loc(c), nontrivial=False)
+                                continue
                             ctx.ob(rule, '%s.%s:no-write-side-step-on-the-exceptional-path:%s' % (mod, q, callee(c)), False,
                                    '%s runs inside a %s block, i.e. also after a part-file step has failed; the summary '
                                    'would then be rewritten for a partially written append' % (norm(c)[:50], kind), m.loc(c))
@@ -509,16 +525,34 @@ def mode_params_rule(ctx, rule):
     ctx.ob(rule, 'writer.convert:lossy-float-to-integer-cast-refused', okc,
            'astype(int) turns NaN into the smallest integer and cuts fractions off; reached when a float frame is appended to an integer column', wr.loc(f))
     # wider integers cast to a narrower integer column keep their low bits only: the cast result is compared back
-    okn = False
+    okn, why_n = False, 'no refusal under a test for integer input and integer storage'
     for st in walk_no_nested(f):
-        if isinstance(st, ast.If) and 'itemsize' in norm(st.test) and "dtype.kind in 'iu'" in norm(st.test) \
-                and any(isinstance(r, ast.Raise) for r in ast.walk(st)):
-            inner = [x for x in ast.walk(st) if isinstance(x, ast.If) and x is not st and any(isinstance(r, ast.Raise) for r in x.body)]
-            tests = [norm(x.test) for x in inner] + [norm(st.test)]
-            okn = okn or any(('out != data.values' in t or 'data.values != out' in t) and '.any()' in t for t in tests)
+        t0 = norm(st.test) if isinstance(st, ast.If) else ''
+        if not (isinstance(st, ast.If) and "dtype.kind in 'iu'" in t0 and "out.dtype.kind in 'iu'" in t0 and any(isinstance(r, ast.Raise) for r in ast.walk(st))):
+            continue
+        inner = [x for x in ast.walk(st) if isinstance(x, ast.If) and x is not st and any(isinstance(r, ast.Raise) for r in ast.walk(x))]
+        tests = [norm(x.test) for x in inner] + [t0]
+        defs_n = {norm(a_.targets[0]): norm(a_.value) for a_ in ast.walk(st) if isinstance(a_, ast.Assign) and len(a_.targets) == 1}
+        # (a) the cast result is compared back with the values (only sound for a narrower storage type: guarded by itemsize)
+        form_a = any(('out != data.values' in t or 'data.values != out' in t) and '.any()' in t for t in tests)
+        # (b) the values are compared with the range of the column's own integer type
+        info = [k for k, v in defs_n.items() if v.startswith('np.iinfo(')]
+        form_b = False
+        for k in info:
+            tgt = defs_n[k][len('np.iinfo('):-1]
+            tgt_src = defs_n.get(tgt, tgt)
+            rng = any('%s.min' % k in t and '%s.max' % k in t and 'data.values.min()' in t and 'data.values.max()' in t for t in tests)
+            form_b = form_b or (rng and tgt_src in ('logical_dtype(se)', 'converted_types.typemap(se)'))
+        if form_b or (form_a and 'itemsize' in t0):
+            okn = True
+        elif form_a:
+            why_n = 'the cast is compared back, but not only for a narrower storage type: equal widths differ in sign'
+        elif info:
+            why_n = 'range taken from %s, not from the column\'s own type' % [defs_n[k] for k in info]
     ctx.ob(rule, 'writer.convert:narrowing-integer-cast-refused-when-it-changes-a-value', okn,
-           'astype to a narrower integer type keeps the low bits (2**40 + 5 -> 5); reached when int64 rows are appended to an '
-           'INT32 column', wr.loc(f))
+           'astype to a narrower integer type keeps the low bits (2**40 + 5 -> 5), and the column\'s own type may be narrower than or '
+           'differ in sign from its storage type (300 into INT_8 -> 44, -1 into UINT_32 -> 4294967295); reached when integers of '
+           'another type are appended: %s' % why_n, wr.loc(f))
     subs = [x for x in walk_no_nested(f) if isinstance(x, ast.Subscript) and norm(x.value) == 'revmap']
     tdef = [st for st in f.body if isinstance(st, ast.Assign) and norm(st.targets[0]) == 'type']
     ok_def = len(tdef) == 1 and norm(tdef[0].value) == 'se.type'
